@@ -421,6 +421,36 @@ def streams(rng, tier):
                      "the length is the model's")
     s6.shrinkable = False
     out.append(s6)
+    # ---- one std::io adapter (`Writer`) across a failed write: an inner writer that has room again (it takes chunks whole or not at all, or it was
+    # rewound through get_mut) accepts what fits; the adapter keeps no memory of the failure
+    iops = []
+    for _ in range(1500 if tier == "quick" else 30000):
+        cap = rng.choice([0, 1, 2, 3, 4, 5, 8, 16, 23, 24, 64])
+        chunks = [gen.hexb(gen.rand_bytes(rng, rng.choice([0, 1, 1, 2, 3, 4, 5, 9, 17, 30]))) for _ in range(rng.randint(1, 10))]
+        iops.append(f"sinkio {rng.choice(['aon', 'rewind'])} {cap} " + " ".join(chunks))
+    def judge_sinkio(op, impl, model, spec):
+        w = op.split(" ")
+        cap = int(w[2]); chunks = [b"" if c == "-" else bytes.fromhex(c) for c in w[3:]]
+        rs = []
+        if w[1] == "aon":
+            buf = b""
+            for c in chunks:
+                if len(c) <= cap - len(buf): buf += c; rs.append("ok")
+                else: rs.append("err")
+        else:
+            m = bytearray([0xEE] * cap); pos = 0
+            for c in chunks:
+                n = min(len(c), cap - pos)
+                m[pos:pos + n] = c[:n]; pos += n
+                if n < len(c): rs.append("err"); pos = 0
+                else: rs.append("ok")
+            buf = bytes(m)
+        return "ok" if impl == f"seq:{','.join(rs)} buf={gen.hexb(buf)}" else "violation"
+    s7 = Stream("writer-adapter-across-a-failed-write", "hcore", iops, model_ops=["nop"] * len(iops), judge=judge_sinkio,
+                rule="sinkio: raw write_all sequences on ONE encode::write::Writer over (a) an all-or-nothing std::io::Write, (b) a std::io::Cursor rewound through "
+                     "get_mut() after each failure: a chunk that fits is written, whatever failed before; oracle computed here")
+    s7.shrinkable = False
+    out.append(s7)
     return out
 
 
@@ -428,6 +458,11 @@ def replay_streams(rp):
     op = rp.get("original_op") or rp["op"]
     if op.startswith("tsink"):
         s = Stream("replay", "hcore", [op], model_ops=[rp.get("model_op") or "nop"], judge=lambda o, i, m, sp: "ok" if i.startswith("fits ") else "violation")
+        s.shrinkable = False
+        return [s]
+    if op.startswith("sinkio"):
+        st = [x for x in streams(__import__("random").Random(1), "quick") if x.name.startswith("writer-adapter")][0]
+        s = Stream("replay", "hcore", [op], model_ops=["nop"], judge=st.judge)
         s.shrinkable = False
         return [s]
     j = judge_raw if op.startswith("sink ") else judge_script if op.startswith("encseq") else judge_enc
